@@ -877,6 +877,8 @@ func c11RunConsul(h *c11SrcHistory, strict bool, report c11SrcReport) (loads, ev
 
 // ---------------------------------------------------------------- driver of both
 
+var c11Reruns int64 // histories of the real sources that were run a second time
+
 func c11SourcesPart(envName, source string, selftest bool) (cases, loads, evals, nontrivial, skipped int64, samples []string, rejected bool) {
 	hs, err := verifx.ReadCases[c11SrcHistory](envName)
 	if err != nil {
@@ -923,37 +925,54 @@ func c11SourcesPart(envName, source string, selftest bool) (cases, loads, evals,
 		go func() {
 			defer wg.Done()
 			defer func() { <-sem }()
-			failed := false
-			report := func(clause, kind, damage, got, msg string) {
-				if failed {
-					return // after the first disagreement the specification's later expectations are moot
+			// A history that disagrees is run a second time from scratch (fresh directory / server /
+			// source); it is reported when it disagrees again.  The real sources run against the
+			// machine's file system, sockets and scheduler: a defect of the code shows every time, a
+			// one-off environmental failure of a load does not.
+			type finding struct{ clause, kind, damage, got, msg string }
+			var l, e int
+			var err error
+			var found *finding
+			for attempt := 0; attempt < 2; attempt++ {
+				var first *finding
+				report := func(clause, kind, damage, got, msg string) {
+					if first == nil { // after the first disagreement the specification's later expectations are moot
+						first = &finding{clause, kind, damage, got, msg}
+					}
 				}
-				failed = true
+				if src == "http" {
+					l, e, err = c11RunHTTP(h, strict, report)
+				} else if src == "consul" {
+					l, e, err = c11RunConsul(h, strict, report)
+				} else {
+					l, e, err = c11RunPath(h, strict, root, report)
+				}
+				found = first
+				if first == nil || selftest {
+					break
+				}
+				if attempt == 0 {
+					atomic.AddInt64(&c11Reruns, 1)
+					verifx.Emit(map[string]any{"kind": "note", "msg": fmt.Sprintf("%s source, history %s disagreed once (%s): running it again", src, c11SrcHistString(h), first.msg)})
+				}
+			}
+			if found != nil {
 				if selftest {
 					mu.Lock()
 					rejected = true
 					mu.Unlock()
-					return
+				} else {
+					hh := *h
+					hh.Source, hh.Strict = src, strict
+					f := map[string]any{"sub": "source", "source": src, "clause": found.clause, "kind": found.kind}
+					if found.damage != "" {
+						f["damage"] = found.damage
+					}
+					if found.got != "" {
+						f["got"] = found.got
+					}
+					verifx.Fail(hh, f, "%s source, history %s: %s", src, c11SrcHistString(h), found.msg)
 				}
-				hh := *h
-				hh.Source, hh.Strict = src, strict
-				f := map[string]any{"sub": "source", "source": src, "clause": clause, "kind": kind}
-				if damage != "" {
-					f["damage"] = damage
-				}
-				if got != "" {
-					f["got"] = got
-				}
-				verifx.Fail(hh, f, "%s source, history %s: %s", src, c11SrcHistString(h), msg)
-			}
-			var l, e int
-			var err error
-			if src == "http" {
-				l, e, err = c11RunHTTP(h, strict, report)
-			} else if src == "consul" {
-				l, e, err = c11RunConsul(h, strict, report)
-			} else {
-				l, e, err = c11RunPath(h, strict, root, report)
 			}
 			atomic.AddInt64(&loads, int64(l))
 			atomic.AddInt64(&evals, int64(e))
